@@ -188,6 +188,22 @@ fn native_spec() {
                 Err(e) => println!("SPEC-REPLAY MISMATCH target=parse_subcommand case={argv:?}: rejected as {:?}", e.kind()),
             }
         }
+        // C01: with ignore_errors an explicit help / version request is still reported, at every level
+        for (argv, want) in [
+            (vec!["prog", "--help"], Some(ErrorKind::DisplayHelp)),
+            (vec!["prog", "sub", "--help"], Some(ErrorKind::DisplayHelp)),
+            (vec!["prog", "sub", "deep", "-h"], Some(ErrorKind::DisplayHelp)),
+            (vec!["prog", "sub", "--version"], Some(ErrorKind::DisplayVersion)),
+            (vec!["prog", "sub", "--bogus"], None),
+            (vec!["prog", "sub", "deep", "--bogus"], None),
+        ] {
+            let cmd = Command::new("prog").ignore_errors(true).version("1.0").propagate_version(true)
+                .subcommand(Command::new("sub").arg(Arg::new("x").long("x").action(ArgAction::SetTrue)).subcommand(Command::new("deep")));
+            let got = cmd.try_get_matches_from(argv.clone()).err().map(|e| e.kind());
+            if got != want {
+                println!("SPEC-REPLAY MISMATCH target=parse_subcommand case=ignore_errors(true) {argv:?}: {got:?}, expected {want:?}");
+            }
+        }
     } else if target == "build_once" {
         // C11: building is idempotent; reuse through the by-reference entry point gives equal results
         std::panic::set_hook(Box::new(|_| {}));
